@@ -106,6 +106,7 @@ def run_tlc(
     r.wall = time.time() - t0
     r.rc = p.returncode
     r.out = p.stdout + p.stderr
+    pending = None
     for line in p.stdout.splitlines():
         m = _STATS.search(line)
         if m:
@@ -123,8 +124,16 @@ def run_tlc(
         m = _COV.match(line)
         if m:
             r.coverage[m.group(1)] = (int(m.group(3)), int(m.group(4)))
-        if line.startswith("<<"):
-            r.printed.append(line)
+        if pending is not None:
+            pending += " " + line.strip()
+            if line.rstrip().endswith(">>"):
+                r.printed.append(pending)
+                pending = None
+        elif line.startswith("<<"):
+            if line.rstrip().endswith(">>"):
+                r.printed.append(line)
+            else:
+                pending = line.rstrip()
     if r.rc not in (0, 10, 11, 12, 13) or (r.rc != 0 and r.violated is None):
         # simulation mode is stopped by timeout/num; rc 0. Anything else is machinery trouble.
         lines = r.out.splitlines()
@@ -157,14 +166,27 @@ def extract_trace(out):
 
 # --------------------------------------------------------------------------- batch validation
 
-_VERD = re.compile(r'^<<"VERDICT", (.*)>>$')
+_VERD = re.compile(r'^<<\s*"VERDICT",\s*(.*?)\s*>>$')
+
+
+def _clean(x):
+    """JSON values the TLA+ Json module cannot read (null, floats) become strings"""
+    if x is None:
+        return "null"
+    if isinstance(x, float):
+        return repr(x)
+    if isinstance(x, dict):
+        return {str(k): _clean(v) for k, v in x.items()}
+    if isinstance(x, (list, tuple)):
+        return [_clean(v) for v in x]
+    return x
 
 
 def _validate_shard(module, cfg, cases, scratch, idx, timeout):
     path = os.path.join(scratch, f"cases_{module}_{idx}_{os.getpid()}_{time.time_ns()}.ndjson")
     with open(path, "w") as f:
         for c in cases:
-            f.write(json.dumps(c, separators=(",", ":")) + "\n")
+            f.write(json.dumps(_clean(c), separators=(",", ":")) + "\n")
     try:
         r = run_tlc(module, cfg, scratch, workers=1, env={"CASES": path}, timeout=timeout)
     finally:
